@@ -255,6 +255,14 @@ func ZZ_C16_Converters() {
 		held.Release()
 		zzInService(mgr, func() {})
 		check("converted-through-an-older-view")
+	case 8: // the definition of a tag with the converter attached is edited: its new members get output too
+		imp("a.pcap")
+		imp("b.pcap")
+		zzSettle(mgr)
+		attach("service/web")
+		check("attached")
+		zz.Assert(mgr.UpdateTag("service/web", UpdateTagOperationUpdateQuery("sport:443")) == nil, "updatetag")
+		check("definition-edited")
 	case 5: // the converter is restarted: everything is converted again
 		imp("a.pcap")
 		zzSettle(mgr)
